@@ -24,6 +24,27 @@ P = {
  "C11": ("All 35 names x octaves 0-9 x 31 interval shorthands x up/down are enumerated at Note level against own letter/pitch arithmetic (incl. up-then-down restoration and change_octave clamping); seeded random tracks with 1-8 step transpose/augment/diminish histories applied at container, bar or track level are checked after every step against shadow Note copies (each targeted note equals the Note-level operation, untargeted notes, rests, beats, durations, channels and velocities untouched).",
          "Own pitch arithmetic for ordinary names; the lifting differential (container vs Note-level operation) for every name.",
          "bounded-exhaustive enumeration + Hypothesis operation histories vs reference arithmetic and lifting differential"),
+ "C05": ("All 17 scale classes (Diatonic with all 21 semitone-position pairs) x every tonic valid for the class x octave counts x every degree x both directions are enumerated against own step-pattern tables; scale recognition is compared on sampled note sets (subsets of scales, subsets plus a foreign note, random sets) with a brute-force specification over the 15 key pairs x 7 scale types.",
+         "Pattern tables and recognition specification in vlib/ref/scales.py; chromatic descending compared by pitch class only.",
+         "bounded-exhaustive enumeration + Hypothesis note sets vs reference tables / brute-force specification"),
+ "C06": ("Every library shorthand x 35 roots (thorough 49) is enumerated against an own formula table (letter + semitones per chord tone) and the named builders; every m/M alias spelling is enumerated; slash basses, polychords (half built to trigger the duplicate-skip rule), lists, NC and four malformed-input classes are sampled with Hypothesis (slash chords enumerated in thorough); table agreement between constructible shorthands and documented meanings is checked directly.",
+         "Formula and meaning tables in vlib/ref/chords_ref.py written from theory/docstrings; empty string and empty halves excluded.",
+         "bounded-exhaustive enumeration + Hypothesis PBT vs formula table"),
+ "C07": ("Every shorthand with >= 3 notes x 35 roots (thorough 49) x every rotation x both output forms is enumerated for the rebuild-and-name clause; all 21^3 three-note inputs for containment; sizes 0-2 exhaustively in the interval-naming domain; thousands of random 4-9 note inputs with both flags and root-position polychords for never-raises / same-length / constructible-names.",
+         "Round trip through chords.from_shorthand plus a pinned meaning table and inversion ordinals in vlib/ref/chords_ref.py.",
+         "bounded-exhaustive round-trip enumeration + Hypothesis PBT"),
+ "C08": ("30 keys x 7 degrees x triad/seventh x function name / alias / numeral string in both cases, prefixes -3..3 x all 52 suffixes, unrecognised numerals, chord->function->chord in the 15 major keys, parse/format round trips, and all five substitution rules plus substitute(depth 0..2) on every numeral x suffix x prefix are enumerated against own stacks-of-thirds and rule predicates; random progressions of length 1-4 at every index; the caller's list is deep-compared around every rule call.",
+         "Diatonic-harmony helpers and numeral parser in vlib/ref/chords_ref.py; substitute and substitute_diminished_for_dominant checked for well-formedness only.",
+         "bounded-exhaustive enumeration + Hypothesis PBT vs reference harmony model"),
+ "C09": ("All 80 vocabulary values (10 bases x dots 0-4, three tuplet kinds) are built and analysed back exactly; perturbations within 1% of every undotted/single-dotted value (Hypothesis floats plus fixed endpoints); add/subtract on value pairs against exact Fractions; tuplet helpers against the ratio formula; meter predicates over integers, floats, zero, negatives, huge powers of two, inf and nan with a deterministic line-event budget so non-termination is a verdict, not a timeout.",
+         "Vocabulary as Fractions in vlib/ref/values.py; float tolerances as stated in the module's ASSUMPTIONS.",
+         "bounded-exhaustive enumeration + Hypothesis floats vs exact-rational reference; step-budgeted termination check"),
+ "C10": ("35 names (plus mixed-order names for int()) x octaves 0-9 enumerated for the pitch number and the int / 'Name-octave' / repr / copy reconstructions; all ordered pairs x six comparison operators (sampled in quick, all 122 500 in thorough); Hz conversion over 0..127 x standard pitches x detune up to 40 cents; Helmholtz round trip for every name and octave; velocity/channel bounds and malformed names; copy independence.",
+         "Own pitch arithmetic; repr is unquoted with ast.literal_eval before being fed back.",
+         "bounded-exhaustive enumeration + Hypothesis PBT vs reference arithmetic / round trips"),
+ "C16": ("Seeded random compositions, tracks and bars (all keys, 14-72 meters, integral and rounding tick values, chords, rests in every position incl. empty containers, channels, velocities, instruments, tempo-carrying containers, bpm 4-1000, repeat 0-3) and a systematic key x meter sweep are written through all five file writers and MidiFile.get_midi_data(); the bytes are parsed by an independent strict SMF reader and the decoded events compared with the events computed from the score description (multiset per tick + per-pitch on/off alternation + instrument-before-note ordering). The VLQ encoder is compared with a reference encoder on a dense range and all power-of-two neighbourhoods (thorough: all 2^28 values).",
+         "Own SMF parser (vlib/ref/smf.py) and event model (vlib/ref/midimodel.py); values with an exact x.5 tick length are not generated.",
+         "translation validation by an independent decoder over Hypothesis-generated programs + exhaustive VLQ enumeration"),
 }
 DEFAULT_NOTE = "Oracle = independent reference model under /verif/vlib/ref; bounds per DESIGN.md section 4."
 
